@@ -768,7 +768,8 @@ def strategies():
         "sib_ok": st.booleans(),
         "sib_delay": st.sampled_from([0.25, 2, 6, 12]),
         "child_input": inputs,
-        "name": st.sampled_from([None, None, None, "kid", "kid", "kid", "k.i-d_1", "a:b", "a/b", "x y", "n" * 80, "n" * 81, 5, "tab\t"]),
+        # (one launch in eight carries a Name the API would refuse: enough to reach each of them in every quick run without thinning out the other classes)
+        "name": st.sampled_from([None] * 26 + ["kid"] * 12 + ["k.i-d_1", "n" * 80] * 2 + ["a:b", "a/b", "x y", "n" * 81, 5, "tab\t"]),
         "resource_region": st.sampled_from(["local", "local", "", "eu-west-1"]),
         "schedule": sched,
     }).map(fix_child)
